@@ -37,6 +37,10 @@ pub struct RRes {
     pub unjudged: u32,
     pub defects: u32,
     pub tuple: Option<Tuple>,
+    /// the decoded name is empty (NoName is then reported by build(), after the finishing hook)
+    pub empty_name: bool,
+    /// the type substring exactly as written
+    pub raw_type: Option<String>,
 }
 
 impl RRes {
@@ -284,6 +288,12 @@ pub fn raw_split(s: &str) -> Option<RawSplit<'_>> {
 
 /// The reference parser. Collects *all* defect classes instead of stopping at the first.
 pub fn rparse(s: &str, mode: Mode) -> RRes {
+    rparse_opt(s, mode, true)
+}
+
+/// `post` = apply what build() does after the finishing hook (empty-name check, checksum
+/// canonicalisation, typed rules); with `post == false` the tuple is what the hook gets to see.
+pub fn rparse_opt(s: &str, mode: Mode, post: bool) -> RRes {
     let mut r = RRes::default();
     if !s.starts_with("pkg:") {
         if s.len() >= 4 && s.is_char_boundary(4) && s[..4].eq_ignore_ascii_case("pkg:") {
@@ -397,6 +407,7 @@ pub fn rparse(s: &str, mode: Mode) -> RRes {
         r.unjudged |= U_TYPE_START;
     }
     t.ty = ty.to_ascii_lowercase();
+    r.raw_type = Some(ty.to_owned());
     let rest2 = &path[slash + 1..];
     let (rest3, version_raw) = match rfind_byte(rest2, b'@') {
         Some(p) => (&rest2[..p], Some(&rest2[p + 1..])),
@@ -433,7 +444,10 @@ pub fn rparse(s: &str, mode: Mode) -> RRes {
         None => r.defects |= ErrClass::Escape.bit(),
         Some(d) => {
             if d.is_empty() {
-                r.defects |= ErrClass::NoName.bit();
+                r.empty_name = true;
+                if post {
+                    r.defects |= ErrClass::NoName.bit();
+                }
                 if ns_raw.map(|n| n.bytes().any(|b| b != b'/')).unwrap_or(false) {
                     r.unjudged |= U_TRAILING_SLASH_NAME;
                 }
@@ -442,6 +456,10 @@ pub fn rparse(s: &str, mode: Mode) -> RRes {
         },
     }
 
+    if !post {
+        r.tuple = Some(t);
+        return r;
+    }
     // checksum
     if let Some(c) = t.quals.get("checksum").cloned() {
         match checksum_canonical(&c) {
